@@ -758,7 +758,29 @@ def replay(ctx, path):
     elif 'cfg' in inp:
         case = live_case(I, live(), inp, 'replay')[0]
     else:
-        print('replay of pure op %r: re-run ./check C12 with the same VERIF_SEED' % inp.get('op'))
+        # pure ops: re-run the real function and show what it returns now
+        iu, us = I.ircutils, I.utils.str
+        op = inp.get('op')
+        try:
+            if op == 'munge':
+                print('implementation now: munge ->', repr(I.munge(inp['s'])), 'chunks ->', I.chunks(inp['s']))
+            elif op == 'split':
+                print('implementation now:', safe_call(us.splitBytes, inp['word'].encode(), inp['size']))
+            elif op == 'btw':
+                print('implementation now:', safe_call(us.byteTextWrap, inp['s'], inp['size']))
+            elif op == 'parse':
+                p = iu.FormatParser(inp['s']); c = p.parse()
+                print('implementation now:', enc_ctx(c), p.max_context_size)
+            elif op == 'strip':
+                print('implementation now:', repr(iu.stripFormatting(inp['s'])))
+            elif op == 'ctx':
+                f = inp['ctx'].split(' ')
+                c = iu.FormatContext()
+                c.fg = None if f[0] == '~' else int(f[0]); c.bg = None if f[1] == '~' else int(f[1])
+                c.bold, c.reverse, c.underline = [x == '1' for x in f[2:5]]
+                print('implementation now:', repr(c.start(inp['s'])), repr(c.end(inp['s'])), c.size())
+        except Exception as e:
+            print('implementation now raises %r' % (e,))
         return 0
     print('implementation now: oracle_ok=%s finding=%s %s' % (case.oracle_ok, case.finding, case.oracle_msg))
     print('implementation output:', case.impl[:2000])
